@@ -608,7 +608,12 @@ def rule_AI17(rep, prog):
     cm = prog.fn("_dispatch_timer_unote_compute_missed")
     rep.saw(cm)
     rets = [i for i in cm.all_insts() if i.op == "ret" and i.ops]
-    ok = bool(rets) and all(linform(cm, r.ops[0]).get(("a", 2)) == 1 for r in rets)
+    def leaves(v, depth=0):
+        i = cm.inst(v)
+        if i is not None and i.op == "phi" and depth < 4:
+            return [x for w, frm in i.ops for x in leaves(w, depth + 1)]
+        return [v]
+    ok = bool(rets) and all(linform(cm, v).get(("a", 2)) == 1 for r in rets for v in leaves(r.ops[0]))
     rep.require(rid, ok, (rets[0].loc if rets else "?"), cm.name, "compute-missed-drops-prev",
                 "_dispatch_timer_unote_compute_missed does not return prev + missed: fires counted before the timer was disarmed are lost (or counted twice)")
     n = 0
